@@ -327,11 +327,8 @@ _world = None
 
 
 def check_case(acc, case):
-    from verif.harness import World
-    global _world
-    if _world is None:
-        _world = World(POP)
-    world = _world
+    from verif.harness import shared_world
+    world = shared_world('c07', POP)
     del world.trace[:]
     del world.lan.protocol_errors[:]
     script = render(case)
